@@ -272,7 +272,7 @@ def enum_decode(binpath, res, maxlen):
 
 def main(ctx):
     res = common.Result()
-    n = 3200 if not ctx.thorough else 125000
+    n = 3200 if not ctx.thorough else 500000
     for p in common.pmap(shard_random, [(ctx.bin, ctx.seed, s, n) for s in range(common.NPROC)]):
         res.merge(p)
     small_scope_pairs(ctx.bin, res)
